@@ -39,15 +39,43 @@ FAILURES = [
     ('conditional-terminate', '<xsl:if test="count(preceding::*) + count(ancestor::*) &gt;= %(k)d"><xsl:message terminate="yes">late</xsl:message></xsl:if><x/>'),
     ('bad-number', '<xsl:number value="1" format="1" grouping-separator="ab" grouping-size="2"/>'),
     ('element-in-attribute', '<z><xsl:attribute name="q"><y/></xsl:attribute></z>'),
+    # failures raised in the middle of the engine's own bookkeeping: while xsl:number walks back over the document filling its counters, while a key
+    # table is being built, inside a sort key, a match pattern predicate, an attribute value template, a with-param, an attribute set.  ext:missing()
+    # is an extension function nobody installed: a run-time error, raised only for the nodes %(c)s lets through
+    ('number-any-count', '<xsl:for-each select="//*"><xsl:number level="any" count="*[%(c)s or ext:missing()]"/>,</xsl:for-each>'),
+    ('number-any-from', '<xsl:for-each select="//*"><xsl:number level="any" from="*[not(%(c)s) and ext:missing()]"/>,</xsl:for-each>'),
+    ('number-multiple-count', '<xsl:for-each select="//*"><xsl:number level="multiple" count="*[%(c)s or ext:missing()]"/>,</xsl:for-each>'),
+    ('number-single-count', '<xsl:for-each select="//*"><xsl:number count="*[%(c)s or ext:missing()]"/>,</xsl:for-each>'),
+    ('key-use', '<xsl:value-of select="count(key(\'kf\', \'a\'))"/>', '<xsl:key name="kf" match="*" use="concat(name(), self::*[not(%(c)s)][ext:missing()])"/>'),
+    ('key-match', '<xsl:value-of select="count(key(\'kf\', \'a\'))"/>', '<xsl:key name="kf" match="*[%(c)s or ext:missing()]" use="name()"/>'),
+    ('sort-key', '<xsl:for-each select="//*"><xsl:sort select="self::*[not(%(c)s)][ext:missing()]"/><s/></xsl:for-each>'),
+    ('match-predicate', '<xsl:apply-templates select="//*" mode="mf"/>', '<xsl:template match="*[not(%(c)s) and ext:missing()]" mode="mf">m</xsl:template><xsl:template match="*" mode="mf"><f/></xsl:template>'),
+    ('avt', '<xsl:for-each select="//*"><e a="{name()}" b="{self::*[not(%(c)s)][ext:missing()]}"/></xsl:for-each>'),
+    ('with-param', '<xsl:for-each select="//*"><xsl:call-template name="wf"><xsl:with-param name="p" select="self::*[not(%(c)s)][ext:missing()]"/></xsl:call-template></xsl:for-each>',
+     '<xsl:template name="wf"><xsl:param name="p"/><wf><xsl:value-of select="$p"/></wf></xsl:template>'),
+    ('attribute-set', '<xsl:for-each select="//*"><e xsl:use-attribute-sets="asf"/></xsl:for-each>', '<xsl:attribute-set name="asf"><xsl:attribute name="q"><xsl:value-of select="self::*[not(%(c)s)][ext:missing()]"/></xsl:attribute></xsl:attribute-set>'),
+    ('union-in-predicate', '<xsl:value-of select="count(//*[preceding::*[not(%(c)s)][ext:missing()] | following::*[1]])"/>'),
+    ('format-number', '<xsl:for-each select="//*"><xsl:value-of select="format-number(count(preceding::*), \'#0.0\', self::*[not(%(c)s)][ext:missing()])"/></xsl:for-each>'),
 ]
+CONDITIONS = ['count(preceding::*) &gt;= %d', 'count(preceding::*) &lt; %d', 'count(ancestor::*) != %d', 'count(following::*) &gt;= %d', '@*', 'not(*)', 'position() != %d', 'true()']
+# a stylesheet that always succeeds and goes through everything the engine builds lazily and keeps: counters of xsl:number, key tables, sort, id, formats
+LAZY_OK = ('<xsl:key name="kn" match="*" use="name()"/><xsl:key name="ka" match="*" use="@*"/><xsl:decimal-format name="df" decimal-separator="," grouping-separator="."/>'
+           '<xsl:template match="/"><out><xsl:for-each select="//*"><n><xsl:number level="any" count="*"/>/<xsl:number level="any"/>/<xsl:number level="multiple" count="*" format="1.a"/>/<xsl:number/>'
+           '/<xsl:number level="any" from="*[@*]" format="i"/></n></xsl:for-each><k><xsl:for-each select="//*"><xsl:value-of select="count(key(\'kn\', name()))"/>,<xsl:value-of select="count(key(\'ka\', string(@*)))"/>;</xsl:for-each></k>'
+           '<s><xsl:for-each select="//*"><xsl:sort select="name()"/><xsl:sort select="count(preceding::*)" data-type="number" order="descending"/><xsl:value-of select="name()"/>,</xsl:for-each></s>'
+           '<f><xsl:value-of select="format-number(count(//*) * 1234.5, \'#.##0,00\', \'df\')"/></f><g><xsl:for-each select="//*[position() &lt; 4]"><xsl:value-of select="generate-id() = generate-id(.)"/></xsl:for-each></g>'
+           '</out></xsl:template>')
 
 
 def failing_stylesheet(r):
     """a stylesheet that aborts at a generated depth inside generated constructs; returns (xsl, description)"""
     depth = r.choice([0, 1, 2, 3, 5, 8])
-    fname, ftext = r.choice(FAILURES)
-    inner = ftext % {'k': r.choice([0, 1, 3, 6])} if '%(' in ftext else ftext
-    extra = []
+    fail = r.choice(FAILURES)
+    fname, ftext = fail[0], fail[1]
+    cond = r.choice(CONDITIONS)
+    cond = cond % r.choice([0, 1, 2, 3, 5, 9]) if '%d' in cond else cond
+    inner = ftext % {'k': r.choice([0, 1, 3, 6]), 'c': cond} if '%(' in ftext else ftext
+    extra = [fail[2] % {'c': cond}] if len(fail) > 2 else []
     names = []
     for n in range(depth):
         wname, w = r.choice(WRAPPERS)
@@ -75,7 +103,7 @@ def failing_stylesheet(r):
         glob = '<xsl:%s name="gv"><g>%s</g></xsl:%s><xsl:variable name="gv2" select="count($gv)"/>' % (kind, inner, kind)
         inner = '<xsl:copy-of select="$gv"/><xsl:value-of select="$gv2"/>'
         names.append('top-level ' + kind)
-    xsl = (HEAD % '') + '<xsl:key name="k" match="*" use="name()"/><xsl:param name="gp" select="\'d\'"/>%s<xsl:template match="/"><out gp="{$gp}">%s%s</out></xsl:template>%s</xsl:stylesheet>' % (glob, before, inner, ''.join(extra))
+    xsl = (HEAD % ' xmlns:ext="urn:verif-no-such-extension"') + '<xsl:key name="k" match="*" use="name()"/><xsl:param name="gp" select="\'d\'"/>%s<xsl:template match="/"><out gp="{$gp}">%s%s</out></xsl:template>%s</xsl:stylesheet>' % (glob, before, inner, ''.join(extra))
     return xsl, '%s inside %s' % (fname, '/'.join(names[::-1]) or 'the root template')
 
 
@@ -97,6 +125,7 @@ def case(ctx, idx, res):
     for _ in range(r.choice([1, 2, 3])):
         xsl, what = failing_stylesheet(r)
         sheets.append(('fail', xsl, what))
+    sheets.append(('ok', (HEAD % '') + LAZY_OK + '</xsl:stylesheet>', 'every lazily built facility'))
     if r.random() < 0.3:
         sheets.append(('fail', (HEAD % '') + '<xsl:output encoding="US-ASCII"/><xsl:template match="/"><out><w/><xsl:comment>caf&#233;</xsl:comment></out></xsl:template></xsl:stylesheet>', 'unserializable character in a comment'))
     if r.random() < 0.3:
